@@ -23,19 +23,30 @@ Fixpoint bag_eqb (a b : list row) : bool :=
 Definition mk_rows (header : list field) (rows : list (list val)) : list row :=
   map (fun vs => combine header vs) rows.
 
+(* columns that hold the result of a List / Set aggregation in some rule: the element order of a list there is
+   not part of the statement; lists in these columns are compared sorted, on BOTH sides (a literal list that
+   another rule of the predicate puts into such a column is sorted too) *)
+Definition norm_cell (bagf : list field) (c : field * val) : field * val :=
+  match snd c with
+  | VList l => if existsb (Nat.eqb (fst c)) bagf
+               then match sort_vals l with Ok s => (fst c, VList s) | Fail _ => c end else c
+  | _ => c
+  end.
+Definition norm_rows (bagf : list field) (rs : list row) : list row := map (map (norm_cell bagf)) rs.
+
 (* 0: equal bags (and column names); 1: different; 10 + c: the evaluator failed with code c *)
-Definition check_pred (D : res db) (q : pred * list field * list (list val)) : nat :=
-  let '(p, header, rows) := q in
+Definition check_pred (D : res db) (q : pred * list field * list field * list (list val)) : nat :=
+  let '(p, header, bagf, rows) := q in
   match D with
   | Fail c => (10 + c)%nat
   | Ok D' =>
       match lookup_db p D' with
       | None => 15%nat
-      | Some mine => if bag_eqb mine (mk_rows header rows) then 0%nat else 1%nat
+      | Some mine => if bag_eqb (norm_rows bagf mine) (norm_rows bagf (mk_rows header rows)) then 0%nat else 1%nat
       end
   end.
 
-Definition check_program (P : program) (qs : list (pred * list field * list (list val))) : list nat :=
+Definition check_program (P : program) (qs : list (pred * list field * list field * list (list val))) : list nat :=
   let D := eval_program P [] in map (check_pred D) qs.
 
 (* status of the program alone: 0 ok, else the failure code *)
